@@ -581,3 +581,27 @@ def base_local(fn, operand, depth=16):
         else:
             return l
     return l
+
+
+def variant_str_table(prog, fn, adt_pat):
+    """{variant name: string constant assigned in its match arm (None if the arm assigns no string constant)} for the first
+    match on an `adt_pat` value in fn (the `match self { Self::A => "a", .. }` idiom)."""
+    from mirlib import const_str
+    sws = enum_switches(fn, adt_pat)
+    if not sws:
+        raise AnchorMissing('match on %s in %s' % (adt_pat, fn.path))
+    sw = sws[0]
+    a = prog.adts.get(sw['adt'])
+    if a is None:
+        raise AnchorMissing('ADT %s' % sw['adt'])
+    out = {}
+    for vi, v in enumerate(a['variants']):
+        tgt = arm(sw, vi)
+        val = None
+        if vi in sw['arms'] or fn.blocks[sw['otherwise']]['t']['k'] != 'unreachable':
+            for s in fn.blocks[tgt]['s']:
+                if 'lhs' in s and s['rv']['k'] == 'use' and const_str(s['rv']['a']) is not None:
+                    val = const_str(s['rv']['a'])
+                    break
+        out[v['n']] = val
+    return out
